@@ -4,6 +4,7 @@ import (
 	"fmt"
 	"regexp"
 	"strings"
+	"unicode/utf8"
 
 	"verifsim/gen"
 	"verifsim/kernel"
@@ -73,7 +74,26 @@ type PosOracle func(seq int) (off int, ok bool)
 
 // checkC11 judges one faulted run against its fault-free twin. faults is the
 // injected set; R0 the fault-free run with the same options.
-func checkC11(p *Parser, R0, r *CallResult, faults []kernel.Fault, recoverOn bool, pos PosOracle, lineCol map[int][2]int, kept map[int]bool, filename string) (string, string, map[string]any) {
+// lineColOf computes line and column of a byte offset from the input alone:
+// lines are counted by line feeds, columns in characters from 1. The position
+// *of* a line feed is left undecided (the runtime calls it column 0 of the
+// next line, doc.go speaks of 1-based columns).
+func lineColOf(input []byte, off int) (line, col int, undecided bool) {
+	if off < 0 || off > len(input) || (off < len(input) && input[off] == '\n') {
+		return 0, 0, true
+	}
+	line = 1
+	start := 0
+	for i := 0; i < off; i++ {
+		if input[i] == '\n' {
+			line++
+			start = i + 1
+		}
+	}
+	return line, utf8.RuneCount(input[start:off]) + 1, false
+}
+
+func checkC11(p *Parser, R0, r *CallResult, faults []kernel.Fault, recoverOn bool, pos PosOracle, lineCol map[int][2]int, kept map[int]bool, filename string, input []byte) (string, string, map[string]any) {
 	g := p.Grammar()
 	prefixRe := prefixRegexp(filename)
 	if r.Aborted || r.Overflow {
@@ -214,10 +234,17 @@ func checkC11(p *Parser, R0, r *CallResult, faults []kernel.Fault, recoverOn boo
 			if wantPos != gotPos {
 				return false, fmt.Sprintf("position %s, but the action matched at %s", gotPos, wantPos)
 			}
+			// and the block's own view of its position is checked against the input
+			if l, c, und := lineColOf(input, e.ev.Off); !und && (m[1] != fmt.Sprint(l) || m[2] != fmt.Sprint(c)) {
+				return false, fmt.Sprintf("line:col %s:%s, but offset %d of the input is line %d, character %d", m[1], m[2], e.ev.Off, l, c)
+			}
 		} else if pos != nil {
 			if off, ok := pos(e.ev.Seq); ok {
 				if m[3] != fmt.Sprint(off) {
 					return false, fmt.Sprintf("offset %s, but the block ran at offset %d", m[3], off)
+				}
+				if l, c, und := lineColOf(input, off); !und && (m[1] != fmt.Sprint(l) || m[2] != fmt.Sprint(c)) {
+					return false, fmt.Sprintf("line:col %s:%s, but offset %d of the input is line %d, character %d", m[1], m[2], off, l, c)
 				}
 				if lc, ok := lineCol[off]; ok {
 					if m[1] != fmt.Sprint(lc[0]) || m[2] != fmt.Sprint(lc[1]) {
@@ -443,7 +470,7 @@ func campaignC11(p *Parser, req *Request, resp *Response) {
 				resp.stat("errors_dropped_with_abandoned_growth_attempt", len(r.Injected)-len(mm.errLog))
 			}
 		}
-		class, msg, detail := checkC11(p, R0, r, set, recoverOn, pos, lineCol, kept, call.Opts.FileName())
+		class, msg, detail := checkC11(p, R0, r, set, recoverOn, pos, lineCol, kept, call.Opts.FileName(), call.Input)
 		if class != "" {
 			resp.Violations = append(resp.Violations, Violation{Class: class, Msg: msg, Detail: detail, FaultSets: [][]kernel.Fault{set},
 				Attrs: map[string]string{"class": class, "recover": fmt.Sprint(recoverOn), "memoize": fmt.Sprint(call.Opts.Memoize), "optimized": fmt.Sprint(!p.Has["Memoize"])}})
